@@ -11,7 +11,7 @@
     A result [Err(e)] of the executor is represented by the reply the server would
     build from it (error_to_reply): only the first word matters ([r_err],
     [r_wrongtype]); the script layer (Model/Lua.v) then flattens every error to ERR. *)
-From Ferrous Require Import Base.Bytes Model.Resp Model.Types Model.Glob Model.Utf8 Model.Strings Model.Streams Model.Lists.
+From Ferrous Require Import Base.Bytes Model.Resp Model.Types Model.Glob Model.Utf8 Model.Strings Model.Streams Model.Scan Model.Lists.
 Open Scope Z_scope.
 
 (** ---- CommandParser::extract_string / extract_bytes ---- *)
@@ -116,9 +116,11 @@ Inductive xcmd :=
 (* StreamCommand (XREAD and the consumer-group commands are not modelled here) *)
 | XXAdd (k : bytes) (id : option bytes) (fs : list (bytes * bytes))
 | XXLen (k : bytes)
-| XXRange (rev : bool) (k st en : bytes) (count : option Z)
-| XXTrim (k strategy : bytes) (threshold : Z)
-| XXDel (k : bytes) (ids : list bytes).
+| XXRange (rev : bool) (k st en : bytes) (options : list bytes)   (* what follows the range, as received *)
+| XXTrim (k strategy : bytes) (threshold : list bytes)            (* threshold with its ~ / = modifier, as received *)
+| XXDel (k : bytes) (ids : list bytes)
+(* ScanCommand::Scan (HSCAN / SSCAN / ZSCAN are not modelled here) *)
+| XScan (cursor : Z) (pattern : option bytes) (count : option Z) (type_filter : option bytes).
 
 (** ---- CommandParser::parse_* (None = Err(..), every one an "ERR ..." message) ---- *)
 Definition default_options : set_options :=
@@ -244,6 +246,10 @@ Definition parse_mset (fr : list frame) : option xcmd :=
   if (len fr <? 3) || (len fr mod 2 =? 0) then None else
   option_map XMSet (x_pairs (tl fr)).
 
+(** parse_no_args (3909ba7): RANDOMKEY, FLUSHDB, FLUSHALL, DBSIZE take no argument *)
+Definition parse_no_args (c : xcmd) (fr : list frame) : option xcmd :=
+  match fr with [_] => Some c | _ => None end.
+
 Definition parse_ping (fr : list frame) : option xcmd :=
   match fr with
   | [_] => Some (XPing None)
@@ -271,37 +277,22 @@ Definition parse_xadd (fr : list frame) : option xcmd :=
       end
   | _ => None
   end.
-(** XRANGE / XREVRANGE key a b [COUNT n]: COUNT is looked at only when there are exactly 6 frames;
-    any other tail is silently ignored *)
+(** XRANGE / XREVRANGE key a b [tail]: the tail goes to the command handler as received (0b05118) *)
 Definition parse_xrange (rev : bool) (fr : list frame) : option xcmd :=
   match fr with
   | _ :: k :: a :: b :: tail =>
-      match x_bytes k, x_str a, x_str b with
-      | Some kb, Some ab, Some bb =>
-          match tail with
-          | [c; n] =>
-              match x_str c with
-              | None => None
-              | Some cw =>
-                  if beq (upper cw) (bs "COUNT") then
-                    match x_int parse_usize n with
-                    | Some cnt => Some (XXRange rev kb ab bb (Some cnt))
-                    | None => None
-                    end
-                  else Some (XXRange rev kb ab bb None)
-              end
-          | _ => Some (XXRange rev kb ab bb None)
-          end
-      | _, _, _ => None
+      match x_bytes k, x_str a, x_str b, x_all_bytes tail with
+      | Some kb, Some ab, Some bb, Some opts => Some (XXRange rev kb ab bb opts)
+      | _, _, _, _ => None
       end
   | _ => None
   end.
-(** XTRIM key strategy threshold: frames beyond the fourth are ignored *)
+(** XTRIM key strategy threshold...: everything from the fourth frame on goes to the handler *)
 Definition parse_xtrim (fr : list frame) : option xcmd :=
   match fr with
-  | _ :: k :: st :: th :: _ =>
-      match x_bytes k, x_str st, x_int parse_usize th with
-      | Some kb, Some sb, Some n => Some (XXTrim kb sb n)
+  | _ :: k :: st :: (_ :: _) as th =>
+      match x_bytes k, x_str st, x_all_bytes th with
+      | Some kb, Some sb, Some l => Some (XXTrim kb sb l)
       | _, _, _ => None
       end
   | _ => None
@@ -310,6 +301,49 @@ Definition parse_xdel (fr : list frame) : option xcmd :=
   match fr with
   | _ :: k :: (_ :: _) as ids =>
       match x_bytes k, x_all_strs ids with Some kb, Some l => Some (XXDel kb l) | _, _ => None end
+  | _ => None
+  end.
+
+(** parse_scan_cmd: SCAN cursor [MATCH p] [COUNT n] [TYPE t] in any order; an unknown option word
+    ends the loop silently *)
+Fixpoint parse_scan_opts_x (opts : list frame) (p : option bytes) (c : option Z) (t : option bytes)
+  : option (option bytes * option Z * option bytes) :=
+  match opts with
+  | [] => Some (p, c, t)
+  | o :: rest =>
+      match x_str o with
+      | None => None
+      | Some w =>
+          let u := upper w in
+          if beq u (bs "MATCH") then
+            match rest with
+            | [] => None
+            | a :: rest' => match x_bytes a with Some pb => parse_scan_opts_x rest' (Some pb) c t | None => None end
+            end
+          else if beq u (bs "COUNT") then
+            match rest with
+            | [] => None
+            | a :: rest' => match x_int parse_usize a with Some n => parse_scan_opts_x rest' p (Some n) t | None => None end
+            end
+          else if beq u (bs "TYPE") then
+            match rest with
+            | [] => None
+            | a :: rest' => match x_str a with Some tb => parse_scan_opts_x rest' p c (Some tb) | None => None end
+            end
+          else Some (p, c, t)
+      end
+  end.
+Definition parse_scan_cmd (fr : list frame) : option xcmd :=
+  match fr with
+  | _ :: cur :: opts =>
+      match x_int parse_u64 cur with
+      | None => None
+      | Some cursor =>
+          match parse_scan_opts_x opts None None None with
+          | Some (p, c, t) => Some (XScan cursor p c t)
+          | None => None
+          end
+      end
   | _ => None
   end.
 
@@ -386,13 +420,13 @@ Definition parse_named (name : bytes) (fr : list frame) : option xcmd :=
       else if beq name (bs "TYPE") then parse_k XType fr
       else if beq name (bs "RENAME") then parse_kv XRename fr
       else if beq name (bs "RENAMENX") then parse_kv XRenameNx fr
-      else if beq name (bs "RANDOMKEY") then Some XRandomKey          (* no arity check *)
+      else if beq name (bs "RANDOMKEY") then parse_no_args XRandomKey fr
       else if beq name (bs "PING") then parse_ping fr
       else if beq name (bs "ECHO") then
         match fr with [_; m] => option_map XEcho (x_bytes m) | _ => None end
-      else if beq name (bs "FLUSHDB") then Some XFlushDb              (* no arity check *)
-      else if beq name (bs "FLUSHALL") then Some XFlushAll
-      else if beq name (bs "DBSIZE") then Some XDbSize
+      else if beq name (bs "FLUSHDB") then parse_no_args XFlushDb fr
+      else if beq name (bs "FLUSHALL") then parse_no_args XFlushAll fr
+      else if beq name (bs "DBSIZE") then parse_no_args XDbSize fr
       else if beq name (bs "KEYS") then
         match fr with [_; p] => option_map XKeys (x_bytes p) | _ => None end
       else if beq name (bs "XADD") then parse_xadd fr
@@ -401,6 +435,7 @@ Definition parse_named (name : bytes) (fr : list frame) : option xcmd :=
       else if beq name (bs "XREVRANGE") then parse_xrange true fr
       else if beq name (bs "XTRIM") then parse_xtrim fr
       else if beq name (bs "XDEL") then parse_xdel fr
+      else if beq name (bs "SCAN") then parse_scan_cmd fr
       else None.                                                      (* UnknownCommand *)
 
 Definition parse (fr : list frame) : option xcmd :=
@@ -486,25 +521,28 @@ Fixpoint flat_bytes (ps : list (bytes * bytes)) : list bytes :=
 Definition execute (now : Z) (d : db) (c : xcmd) (oracle : option frame) : frame * db :=
   match c with
   | XSet k v o =>
-      if o_nx o && o_xx o then (r_err, d) else
+      (* NX with XX, and KEEPTTL with EX/PX, are syntax errors (b212584) *)
+      if (o_nx o && o_xx o) || (o_keepttl o && match o_exp o with Some _ => true | None => false end) then (r_err, d) else
+      (* KEEPTTL: the new value keeps what is left of the old one's time to live *)
+      let exp := if o_keepttl o then eng_ttl now d k else o_exp o in
       (* GET option: the old value is read first (lazy expiry; WRONGTYPE is an Err) *)
       match (if o_get o then get_string now d k else (Some None, d)) with
       | (None, d1) => (r_wrongtype, d1)
       | (Some old, d1) =>
           if o_nx o then
-            match eng_set_nx now d1 k v (o_exp o) with
+            match eng_set_nx now d1 k v exp with
             | None => (r_err, d1)
             | Some (ok, d2) =>
                 (if o_get o then opt_reply old else if ok then r_ok else r_nil, d2)
             end
           else if o_xx o then
             if negb (eng_exists now d1 k) then ((if o_get o then opt_reply old else r_nil), d1)
-            else match eng_set now d1 k v (o_exp o) with
+            else match eng_set now d1 k v exp with
                  | None => (r_err, d1)
                  | Some d2 => ((if o_get o then opt_reply old else r_ok), d2)
                  end
           else
-            match eng_set now d1 k v (o_exp o) with
+            match eng_set now d1 k v exp with
             | None => (r_err, d1)
             | Some d2 => ((if o_get o then opt_reply old else r_ok), d2)
             end
@@ -575,6 +613,7 @@ Definition execute (now : Z) (d : db) (c : xcmd) (oracle : option frame) : frame
   | XRandomKey =>
       match d_data d with
       | [] => (r_nil, d)
+      | [(k, _)] => (FBulk k, d)                              (* choose among one *)
       | _ => match oracle with
              | Some (FBulk k) => if amem k (d_data d) then (FBulk k, d) else (FError (bs "NOTAKEY"), d)
              | _ => (FError (bs "NOORACLE"), d)
@@ -622,13 +661,20 @@ Definition execute (now : Z) (d : db) (c : xcmd) (oracle : option frame) : frame
   | XXAdd k id fs =>
       h_xadd d (frames_of (bs "XADD") (k :: (match id with Some i => i | None => bs "*" end) :: flat_bytes fs)) oracle
   | XXLen k => h_xlen d (frames_of (bs "XLEN") [k])
-  | XXRange rev k a b count =>
-      let fr := frames_of (if rev then bs "XREVRANGE" else bs "XRANGE")
-                  (k :: a :: b :: match count with Some c => [bs "COUNT"; print_nat c] | None => [] end) in
+  | XXRange rev k a b opts =>
+      let fr := frames_of (if rev then bs "XREVRANGE" else bs "XRANGE") (k :: a :: b :: opts) in
       if rev then h_xrevrange d fr else h_xrange d fr
-  | XXTrim k st n => h_xtrim d (frames_of (bs "XTRIM") [k; st; print_nat n])
+  | XXTrim k st th => h_xtrim d (frames_of (bs "XTRIM") (k :: st :: th))
   | XXDel k ids => h_xdel d (frames_of (bs "XDEL") (k :: ids))
+  (* execute_scan: the frames are rebuilt (MATCH, COUNT, TYPE in this order) for commands/scan.rs *)
+  | XScan cursor p c t =>
+      h_scan now d (frames_of (bs "SCAN")
+        (print_nat cursor :: (match p with Some pb => [bs "MATCH"; pb] | None => [] end)
+           ++ (match c with Some n => [bs "COUNT"; print_nat n] | None => [] end)
+           ++ (match t with Some tb => [bs "TYPE"; tb] | None => [] end)))
   end.
+
+(* ---- arms of other families (e.g. the C11 builder's PEXPIREAT) go above this line, after the stream arms ---- *)
 
 (** LuaCommandAdapter::execute_lua_command / ServerCommandAdapter::execute_with_context *)
 Definition exec_run (now : Z) (d : db) (parts : list frame) (oracle : option frame) : frame * db :=
